@@ -43,6 +43,9 @@ pub struct SchedCfg {
     /// slow reporter: the k-th report() call takes this many ns (the collector lock is held)
     #[serde(default)]
     pub report_stall: Option<(u32, u64)>,
+    /// the reporter itself uses tracing inside report() (on the collector's thread)
+    #[serde(default)]
+    pub reporter_traces: bool,
 }
 
 impl SchedCfg {
@@ -59,6 +62,7 @@ impl SchedCfg {
             stall: None,
             wall_steps: vec![],
             report_stall: None,
+            reporter_traces: false,
         }
     }
 }
